@@ -1,2 +1,80 @@
-(* C12 — non-vacuity examples. *)
-From GL Require Import Stack.Registry Stack.RegSpec Stack.CallFrames.
+(* C12 — non-vacuity: concrete, non-trivial states and histories meeting the hypotheses of the
+   theorems in Properties/C12.v. *)
+From GL Require Import Stack.Registry Stack.RegSpec Stack.CallFrames Stack.Client
+  Stack.CallFramesFacts Stack.RegistryFacts Stack.ClientFacts.
+From Coq Require Import Lia.
+
+Definition d8 : list frame := repeat (mkFrame 77 77) 8.
+Definition pushes (n : nat) : list sop := map (fun i => SPush (Z.of_nat i) d8) (seq 1 n).
+
+(* a history in the domain that fills a fixed stack of 3, queries, unwinds *)
+Definition hF : list sop := pushes 3 ++ [SIsFull; SLast; SAt 1; SSetSp 3; SPop; SSetSp 1; SSp; SIsEmpty].
+Example fixed_dom : ldom 3 [] hF = true.
+Proof. vm_compute. reflexivity. Qed.
+Example fixed_run : frun (newFixed 3) hF = lrun 3 [] hF.
+Proof. apply fixed_refines_stack_lemma; [lia|exact fixed_dom]. Qed.
+
+(* maxSize 17 -> 3 segments, capacity 24: cross two segment boundaries, SetSp(16) at depth 16 with
+   segment 2 not allocated (the C12-2 situation), SetSp(8) from above, fill to capacity *)
+Definition hA : list sop :=
+  pushes 16 ++ [SSetSp 16; SSp; SLast; SPush 100 d8; SPush 101 d8; SSetSp 16; SPop; SSetSp 8; SLast; SSp]
+  ++ pushes 16 ++ [SIsFull; SAt 23; SSetSp 24; SSp; SSetSp 0; SIsEmpty].
+Example auto_dom : ldom (autoCap 17) [] hA = true.
+Proof. vm_compute. reflexivity. Qed.
+Example auto_run : arun_ (newAuto 17 d8) hA = lrun (autoCap 17) [] hA
+                   /\ Ra (afinal (newAuto 17 d8) hA) (lfinal (autoCap 17) [] hA).
+Proof. apply auto_refines_stack_lemma; [lia|reflexivity|exact auto_dom]. Qed.
+Example auto_run_nontrivial : In (OBool true) (lrun (autoCap 17) [] hA) /\ In (OZ 16) (lrun (autoCap 17) [] hA).
+Proof. split; vm_compute; tauto. Qed.
+
+(* a registry of 2 cells growing by 1 up to 5: growth, a refused operation, raisePush at the limit *)
+Definition hR : list rop :=
+  [RPush (VInt 1); RPush (VInt 2); RPush (VInt 3); RCopyRange 1 2 (-1) 3; RSetTop 6; RSetTop 5;
+   RPush (VInt 9); RRaisePush; RPush (VInt 4); RPop; RInsert (VInt 7) 1; RMove 0 2; RFillNil 2 2; RGet 1].
+Example reg_rel : Rr (newRegistry 2 1 5) [] 5.
+Proof. apply (Rr_new 2 1 5); lia. Qed.
+Example reg_dom : ldomR [] 5 hR = true.
+Proof. vm_compute. reflexivity. Qed.
+Example reg_run : rrun (newRegistry 2 1 5) hR = lrunR [] 5 hR.
+Proof. apply registry_refines_list_lemma; [exact reg_rel|exact reg_dom]. Qed.
+Example reg_run_has_overflow : exists b, In b (lrunR [] 5 hR) /\ ost b = SOverflow.
+Proof. eexists. split; [vm_compute; right; right; right; right; left; reflexivity|reflexivity]. Qed.
+
+(* below the limit / above the limit on the same represented registry *)
+Example grow_ok : exists r', rstep (newRegistry 2 1 5) (RSetTop 5) = Ok (r', None) /\ Rr r' (resizeN [] 5) 5.
+Proof. apply (registry_grow_transparent_lemma _ [] 5 (RSetTop 5) reg_rel); [reflexivity|vm_compute; discriminate]. Qed.
+Example overflow : rstep (newRegistry 2 1 5) (RSetTop 6) = Overflow.
+Proof. apply (registry_overflow_error_lemma _ [] 5 (RSetTop 6) reg_rel); [reflexivity|vm_compute; reflexivity]. Qed.
+
+(* options: a setting NewState changes and one it keeps *)
+Example opts_changed : normalise (mkOpt 0 100 50 0 true) = mkOpt 256 5120 0 0 true.
+Proof. reflexivity. Qed.
+Example opts_kept : normal (mkOpt 9 128 131072 1 true) /\ normalise (mkOpt 9 128 131072 1 true) = mkOpt 9 128 131072 1 true.
+Proof. split; [unfold normal; simpl; lia|reflexivity]. Qed.
+
+(* a client that looks at its answers: pushes until depth 6 (asking Sp each time), then unpacks 130
+   cells into the registry, below CallStackSize 7 (fixed) / 9 (auto: 16) and registries 128+grow / 5120 *)
+Fixpoint pushTo (fuel : nat) (k : client) : client :=
+  match fuel with
+  | O => k
+  | S f => Ask (VS SSp) (fun a => match a with
+                                 | AS (OZ d) => if d <? 6 then Ask (VS (SPush d [])) (fun _ => pushTo f k) else k
+                                 | _ => Done end)
+  end.
+Definition theClient : client :=
+  pushTo 10 (Ask (VR (RSetTop 130)) (fun _ => Ask (VR (RPush (VInt 5))) (fun _ =>
+            Ask (VS SIsFull) (fun _ => Ask (VS (SSetSp 6)) (fun _ => Ask (VS SPop) (fun _ => Ask (VR RPop) (fun _ => Done))))))).
+Definition oA := mkOpt 7 128 131072 1 false.
+Definition oB := mkOpt 9 5120 0 32 true.
+Example client_below : vbelow (Z.min (callLimit oA) (callLimit oB)) (Z.min (regLimit oA) (regLimit oB)) [] [] theClient.
+Proof. vm_compute. repeat split; discriminate. Qed.
+Example client_same : run_config oA (fun _ => d8) theClient = run_config oB (fun n => repeat (mkFrame (Z.of_nat n) 3) 8) theClient.
+Proof.
+  apply config_independent_lemma; try exact client_below.
+  - unfold normal, oA; simpl; lia.
+  - unfold normal, oB; simpl; lia.
+  - intros; reflexivity.
+  - intros n. unfold len. rewrite repeat_length. reflexivity.
+Qed.
+Example client_trace_len : length (vspec [] [] theClient) = 19%nat.
+Proof. vm_compute. reflexivity. Qed.
